@@ -35,20 +35,28 @@ func c16Gen(rt *rapid.T) c16Case {
 	}
 	db := model.NewDB()
 	n := rapid.IntRange(cfg.MinStmts, cfg.MaxStmts).Draw(rt, "nstmts")
+	rejected := 0
 	for len(c.Stmts) < n {
 		s, ok := gen.NextStmt(rt, cfg, db)
 		if !ok {
 			continue
 		}
-		if s.Kind == "insert" {
-			// bound the table size (tombstones keep their cells: count inserted rows)
-			ins := 0
-			for _, p := range c.Stmts {
-				if p.Kind == "insert" && p.Table == s.Table {
-					ins += len(p.Rows)
-				}
+		// the property's precondition: the statement's dirty set fits the cache.
+		// An n-row INSERT dirties at most n/4 leaves plus a path, an UPDATE or DELETE at
+		// most one leaf per row it touches. Tables themselves may grow far beyond the cache.
+		switch s.Kind {
+		case "insert":
+			if len(s.Rows) > maxRows {
+				continue
 			}
-			if ins+len(s.Rows) > maxRows {
+		case "update", "delete":
+			if ops, err := db.RowOps(s); err != nil || ops > c.Cache-6 {
+				rejected++
+				if rejected < 400 {
+					continue
+				}
+				// nothing small enough comes up any more: fall back to an insert-only tail
+				cfg.NoMutations = true
 				continue
 			}
 		}
